@@ -14,6 +14,7 @@
     C04-du-unhashable-guard  an unhashable discriminator value falls through to the option loop
     C04-inter-nil-path       intersection's merged unrecognized_keys issue carries a non-nil path
     C02-lazy-wrapper         lazy asks its target through ParseAny whatever the target's result type
+    C02-overwrite-validates  `engine.validatePointer` runs the validator before its overwrite pre-pass (`runOw`)
   `Cfg` selects, per patch, the code as it is today (`false`) or the patched code (`true`); the
   theorems are proved for every `Cfg`, the driver is told by the harness which one it observes.
 
@@ -163,6 +164,7 @@ structure Cfg where
   recordKeyPath : Bool := true
   interPath : Bool := true
   lazyWrap : Bool := true
+  owValidates : Bool := true     -- pending C02-overwrite-validates: an Overwrite check no longer bypasses the validator
   deriving Repr, Inhabited
 
 /-! ## Container-level pieces -/
@@ -173,19 +175,28 @@ structure Mods where
   nonOptional : Bool := false
   deriving Repr, Inhabited
 
+/-- A container-level check (`internals.Checks`, in attachment order): the size checks `Min/Max/Length`, a
+    `Refine` whose predicate answers `ok` on the input at hand (one `custom` issue at [] when it fails), and an
+    `Overwrite` whose function is the identity (it never raises an issue; what it does to the engine: `runOw`). -/
 inductive SizeCk
   | min (n : Nat) | max (n : Nat) | eq (n : Nat)
+  | custom (ok : Bool)
+  | overwrite
   deriving Repr, Inhabited
 
 def SizeCk.holds : SizeCk → Nat → Bool
   | .min n, l => n ≤ l
   | .max n, l => l ≤ n
   | .eq n, l => l == n
+  | .custom ok, _ => ok
+  | .overwrite, _ => true
 
 def SizeCk.issue : SizeCk → Nat → Issue
   | .min _, _ => mk .tooSmall []
   | .max _, _ => mk .tooBig []
   | .eq n, l => if l > n then mk .tooBig [] else mk .tooSmall []
+  | .custom _, _ => mk .custom []
+  | .overwrite, _ => mk .custom []
 
 /-- `engine.RunChecksOnValue` over the size checks: every failing check adds one issue at []. -/
 def sizeIssues : List SizeCk → Nat → List Issue
@@ -632,8 +643,14 @@ def lazyPlaceholder : Issue := { code := .invalidType, path := [], expLazy := tr
 def lazyAsk (cfg : Cfg) (env : Env) (direct : Bool) (target : Mid) (v : V) : MRes :=
   if cfg.lazyWrap || direct then env target v else .err lazyPlaceholder []
 
+/-- what `ZodLazy.Parse` takes for a nil input: the untyped nil and (since /repo bc2d4fc) a typed nil POINTER. -/
+def lazyNil : V → Bool
+  | .nil => true
+  | .ptr _ none => true
+  | _ => false
+
 def parseLazy (cfg : Cfg) (env : Env) (m : Mods) (direct : Bool) (target : Mid) (v : V) : Res :=
-  if v.isNil then
+  if lazyNil v then
     (if m.nonOptional then .err [mk .invalidType []]
      else if m.optional || m.nilable then .ok
      else .err [lazyPlaceholder])
@@ -686,6 +703,72 @@ def run (cfg : Cfg) (env : Env) : Node → V → Res
   | .inter m l r, v => engine m some (validateInter cfg env l r) v
   | .du m disc dmap opts, v => parseDU env m disc dmap opts v
   | .lazy m d t, v => parseLazy cfg env m d t v
+
+/-! ### the overwrite pre-pass of `engine.validatePointer`  (`internal/engine/parser.go:949-975`)
+
+  Every container but Record hands `parseComplexValue` a POINTER extractor that also wraps plain values
+  (`extractPtrForEngine`: `return &s, true`), so every input that extracts is validated through
+  `validatePointer`.  Today that function, when an overwrite check is attached, first applies ALL checks to the
+  pointer (`ApplyChecks(ptr, checks)`: the size checks see a pointer and raise nothing, custom checks see the value,
+  the overwrite wrapper of Slice / Object / Map / Set / Record converts a pointer and yields a new one) and, if that
+  raised no issue and produced a new pointer, returns it WITHOUT calling the validator: no size check, no member
+  schema is consulted.  Array's, Struct's and Tuple's wrappers do not convert a pointer: their pre-pass changes
+  nothing and the validator runs.  After C02-overwrite-validates the validator runs first. -/
+
+def nodeChecks : Node → List SizeCk
+  | .slice _ _ _ cs | .array _ _ _ cs | .tuple _ _ _ _ cs | .map _ _ _ cs | .record _ _ _ _ _ cs
+  | .set _ _ _ cs | .object _ _ _ _ _ cs => cs
+  | _ => []
+
+def hasOverwrite (cs : List SizeCk) : Bool :=
+  cs.any (fun c => match c with | .overwrite => true | _ => false)
+
+def customsHold (cs : List SizeCk) : Bool :=
+  cs.all (fun c => match c with | .custom ok => ok | _ => true)
+
+/-- the input goes through `validatePointer` AND the container's overwrite wrapper converts a pointer. -/
+def ptrPath : Node → V → Bool
+  | .slice _ t _ _, v => (extractSlice t v).isSome
+  | .object .., v => (extractObject v).isSome
+  | .map .., v => (extractMap v).isSome
+  | .set _ t _ _, v => (extractSet t v).isSome
+  | .record .., v => (match v with
+                      | .ptr _ _ => (extractRecord v).isSome
+                      | _ => false)
+  | _, _ => false
+
+def owBypass (cfg : Cfg) (n : Node) (v : V) : Bool :=
+  !cfg.owValidates && !v.isNilLike && hasOverwrite (nodeChecks n) && customsHold (nodeChecks n) && ptrPath n v
+
+def nodeMods : Node → Mods
+  | .slice m .. | .array m .. | .tuple m .. | .map m .. | .record m .. | .set m .. | .object m .. => m
+  | _ => {}
+
+/-- `processModifiersCore` on a nil-like input that Optional / Nilable lets through: the checks "applicable to nil
+    values" (`filterNilChecks`: refine / custom / overwrite) are still applied, to nil
+    (`internal/engine/modifiers.go:77-82`).  What a `Refine(fn)` answers on nil is decided by the container's own
+    wrapper: Object's answers true without calling `fn` (`types/object.go:474`); Slice's and Set's call `fn` on the zero
+    value of the constraint type; Map's, Record's and Array's fail to convert nil and answer false whatever `fn` is
+    (`types/map.go:339`, `types/record.go:327`, `types/array.go:360`). -/
+def customOnNil : Node → Bool → Bool
+  | .object .., _ => true
+  | .slice .., ok | .set .., ok => ok
+  | _, _ => false
+
+def nilChecks (n : Node) : List Issue :=
+  (nodeChecks n).flatMap (fun c => match c with
+    | .custom ok => if customOnNil n ok then [] else [mk .custom []]
+    | _ => [])
+
+/-- `Parse` of a container with container-level checks of every kind: the overwrite pre-pass, the checks applied to
+    an accepted nil, then `run`. -/
+def runOw (cfg : Cfg) (env : Env) (n : Node) (v : V) : Res :=
+  if owBypass cfg n v then .ok
+  else if v.isNilLike && nilOK (nodeMods n) then
+    (match nilChecks n with
+     | [] => run cfg env n v
+     | i :: is => .err (i :: is))
+  else run cfg env n v
 
 /-- The node the constructor really builds from the schema as written: `Array` keeps only a rest schema
     that asserts to `core.ZodSchema` (`types/array.go:672-678`) — any other rest argument is dropped, the
